@@ -41,8 +41,8 @@ TUPLETS = [
 PLAIN = [F(4), F(3), F(2), F(3, 2), F(1), F(3, 4), F(1, 2), F(1, 4), F(1, 8), F(3, 8)]
 PLAIN_W = [1, 1, 3, 2, 6, 1, 5, 3, 1, 1]
 
-TIMESIGS = [(4, 4), (3, 4), (2, 4), (6, 8), (2, 2), (5, 8), (3, 8), (9, 8), (7, 8), (5, 4)]
-TIMESIGS_W = [6, 4, 3, 3, 1, 1, 1, 1, 1, 1]
+TIMESIGS = [(4, 4), (3, 4), (2, 4), (6, 8), (2, 2), (5, 8), (3, 8), (9, 8), (7, 8), (5, 4), (1, 4), (3, 2), (12, 8), (3, 16)]
+TIMESIGS_W = [6, 4, 3, 3, 1, 1, 1, 1, 1, 1, 0.4, 0.4, 0.4, 0.4]
 
 ARTICULATIONS = ["accent", "staccato", "tenuto", "staccatissimo", "strong-accent", "detached-legato"]
 DYNAMICS = ["p", "f", "mf", "mp", "pp", "ff", "sf", "fp"]
@@ -371,7 +371,7 @@ def gen_part(rng, pid, plan, has_pickup, profile):
         "nstaves": nstaves,
     }
     # --- key signatures, clefs
-    part["keysigs"].append({"t": 0, "fifths": rng.choice((0, 0, 1, -1, 2, -3, 4, -5, 7)), "mode": rng.choice(("major", "minor", None)) if profile != "match" else rng.choice(("major", "minor"))})
+    part["keysigs"].append({"t": 0, "fifths": rng.choice((0, 0, 1, -1, 2, -3, 4, -5, 7, -7, 6, -6)), "mode": rng.choice(("major", "minor", None)) if profile != "match" else rng.choice(("major", "minor"))})
     if len(measures) > 2 and rng.random() < 0.2:
         mm = rng.choice(measures[1:])
         ks2 = {"t": mm["s"], "fifths": rng.choice((-2, 3, 0, 5)), "mode": rng.choice(("major", "minor"))}
